@@ -28,7 +28,12 @@ impl Prop for PXLoop {
         let cmd = input["cmd"].as_i64().unwrap_or(0);
         let style = input.get("sepstyle").and_then(|v| v.as_u64()).unwrap_or(0);
         let ninit = input.get("ninit").and_then(|v| v.as_u64()).unwrap_or(1) as usize;
-        let init: Vec<Vec<u8>> = (0..ninit).map(|i| format!("init{}", i).into_bytes()).collect();
+        let mut init: Vec<Vec<u8>> = (0..ninit).map(|i| format!("init{}", i).into_bytes()).collect();
+        // -I: the initial arguments are templates - lit literal bytes and occ occurrences of {}
+        let tmpl = input.get("tmpl").filter(|t| t.is_array());
+        if let Some(t) = tmpl {
+            init = arr(t).iter().map(|x| format!("{}{}", "a".repeat(x["lit"].as_u64().unwrap_or(0) as usize), "{}".repeat(x["occ"].as_u64().unwrap_or(0) as usize)).into_bytes()).collect();
+        }
         let real_cmd: i64 = (vrec_path().as_os_str().len() as i64 + 1) + init.iter().map(|a| a.len() as i64 + 1).sum::<i64>();
         let mb = input.get("mb").and_then(|v| v.as_bool()).unwrap_or(false);
         let (stdin, _contents) = synth_stdin(&args, style, mb);
@@ -36,7 +41,9 @@ impl Prop for PXLoop {
         o.init = init;
         o.hooked = true;
         let mut real_s = 0;
-        if n > 0 {
+        if tmpl.is_some() {
+            o.opts.push("-I{}".into());
+        } else if n > 0 {
             o.opts.push("-n".into());
             o.opts.push(n.to_string());
         }
@@ -45,9 +52,10 @@ impl Prop for PXLoop {
             o.opts.push(l.to_string());
         }
         if s > 0 {
-            real_s = real_cmd + (s - cmd);
+            // (with templates the value is the one to pass, not relative to an abstract command size)
+            real_s = if tmpl.is_some() { s } else { real_cmd + (s - cmd) };
             if real_s <= 0 {
-                return json!({"unrepresentable": true, "events": [], "real": {"cmd": real_cmd, "s": 0, "rlim": 0, "envc": 0, "envbytes": 0, "fname": 0}});
+                return json!({"unrepresentable": true, "events": [], "real": {"cmd": real_cmd, "cmd0": 0, "s": 0, "rlim": 0, "envc": 0, "envbytes": 0, "fname": 0}});
             }
             o.opts.push("-s".into());
             o.opts.push(real_s.to_string());
@@ -74,11 +82,11 @@ impl Prop for PXLoop {
         o.env.push(("FINDUTILS_VERIF_TRACE".into(), tracef.to_string_lossy().into_owned()));
         let res = run_xargs(&self.sb, &o);
         if looks_like_panic(&res) {
-            return json!({"panic": true, "exit": res.exit, "events": [], "real": {"cmd": real_cmd, "s": real_s, "rlim": rlim, "envc": 0, "envbytes": 0, "fname": 0}});
+            return json!({"panic": true, "exit": res.exit, "events": [], "real": {"cmd": real_cmd, "cmd0": 0, "s": real_s, "rlim": rlim, "envc": 0, "envbytes": 0, "fname": 0}});
         }
         let events: Vec<Value> = std::fs::read_to_string(&tracef).unwrap_or_default().lines().filter_map(|l| serde_json::from_str(l).ok()).collect();
         let (envc, envbytes) = res.env_stats.unwrap_or((0, 0));
-        json!({"real": {"cmd": real_cmd, "s": real_s, "rlim": rlim, "envc": envc, "envbytes": envbytes, "fname": vrec_path().as_os_str().len() + 1}, "events": events, "exit": res.exit, "nexec": res.execs.len()})
+        json!({"real": {"cmd": real_cmd, "cmd0": vrec_path().as_os_str().len() + 1, "s": real_s, "rlim": rlim, "envc": envc, "envbytes": envbytes, "fname": vrec_path().as_os_str().len() + 1}, "events": events, "exit": res.exit, "nexec": res.execs.len()})
     }
 
     fn gen(&mut self, rng: &mut Rng, idx: usize, tier: &str) -> Value {
@@ -91,6 +99,30 @@ impl Prop for PXLoop {
             let args: Vec<Value> = (0..nargs).map(|_| json!({"len": 1 + rng.below(maxlen), "hard": rng.chance(1, 3)})).collect();
             v = json!({"args": args, "n": if rng.chance(1, 4) { 500 + rng.below(1500) } else { 0 }, "L": 0, "s": 0, "cmd": 100, "x": rng.chance(1, 4), "r": false,
                        "ninit": rng.below(3), "sepstyle": 0, "mb": false, "rlim": *rng.pick(&[512u64 * 1024, 1024 * 1024])});
+        }
+        if idx % 7 == 4 {
+            // -I: every line is one command; what is measured before it is run is the command line after the substitution
+            let vlen = vrec_path().as_os_str().len() as u64 + 1;
+            let kind = rng.below(3);
+            let (tmpl, lens, rlim, s): (Vec<(u64, u64)>, Vec<u64>, u64, u64) = match kind {
+                0 => {
+                    let t: Vec<(u64, u64)> = (0..1 + rng.below(3)).map(|_| (rng.below(6) as u64, *rng.pick(&[0u64, 1, 1, 2, 3]))).collect();
+                    let raw: u64 = vlen + t.iter().map(|(l, o)| l + 2 * o + 1).sum::<u64>();
+                    let s = if rng.chance(2, 3) { raw + 5 + rng.below(150) as u64 } else { 0 };
+                    (t, (0..2 + rng.below(12)).map(|_| 1 + rng.below(60) as u64).collect(), 8 << 20, s)
+                }
+                1 => {
+                    let t: Vec<(u64, u64)> = (0..1 + rng.below(2)).map(|_| (rng.below(3) as u64, *rng.pick(&[1u64, 1, 2, 3]))).collect();
+                    (t, (0..2 + rng.below(5)).map(|_| *rng.pick(&[100u64, 20000, 40000, 42000, 43000, 64000, 126000])).collect(), 512 * 1024, 0)
+                }
+                _ => {
+                    let t = vec![(*rng.pick(&[0u64, 1, 2]), *rng.pick(&[1u64, 2]))];
+                    (t, (0..2 + rng.below(4)).map(|_| *rng.pick(&[100u64, 65534, 65535, 65536, 131069, 131070, 131071])).collect(), 8 << 20, 0)
+                }
+            };
+            let args: Vec<Value> = lens.iter().map(|l| json!({"len": l, "hard": true})).collect();
+            v = json!({"args": args, "n": 1, "L": 0, "s": s, "cmd": 0, "x": false, "r": rng.chance(1, 3), "ninit": tmpl.len(), "sepstyle": 0, "mb": false, "rlim": rlim,
+                       "tmpl": tmpl.iter().map(|(l, o)| json!({"lit": l, "occ": o})).collect::<Vec<_>>()});
         }
         // outcomes of the successive invocations: mostly success, some failures, now and then a fatal one
         let mut script = vec![];
@@ -108,6 +140,15 @@ impl Prop for PXLoop {
         // one counter of one logged step is off by one, or the exit status is another one
         let mut o = obs.clone();
         let mut ev = arr(&o["events"]);
+        // -I: the measurement of the substituted command line says something else
+        if let Some(k) = ev.iter().rposition(|e| e["ev"] == "Subst") {
+            if ev.len() % 3 != 0 {
+                let sys = ev[k]["sys"].as_u64().unwrap_or(0);
+                ev[k]["sys"] = json!(sys + 8);
+                o["events"] = json!(ev);
+                return Some(o);
+            }
+        }
         let k = ev.iter().rposition(|e| e["ev"] == "Accept" || e["ev"] == "Retry");
         match k {
             Some(k) if ev.len() % 2 == 0 => {
